@@ -265,3 +265,1017 @@ Section Trace.
   Lemma eval_cached_mem_E cid e o :
     eval (ECached (CMem cid) e) o = wrap_eval (if cache_off o then eval e o else cached_on cid e o).
   Proof. reflexivity. Qed.
+  Lemma eval_call_E partial f args kwargs o :
+    eval (ECall partial f args kwargs) o =
+      wrap_eval (bind (eval f o) (fun fv =>
+                 bind (mapM S (fun x => eval x o) args) (fun av =>
+                 bind (mapM S (fun x => eval x o) kwargs) (fun kv =>
+                   if partial then
+                     match fv with
+                     | VF fid pre post => ret (VF fid (pre ++ av) (post ++ kv))
+                     | _ => fail CUnmodelled false
+                     end
+                   else call_value_n S ucall fv (av ++ kv))))).
+  Proof. reflexivity. Qed.
+  Lemma eval_template_E s ps o :
+    eval (ETemplate s ps) o =
+      wrap_eval (bind (template_options S (fun x => eval x o) ps o) (fun o' =>
+                 bind (emit_reads S (filter (fun k => negb (is_par_key k)) (resolve_reads rfuel o' (JStr s))) o) (fun _ =>
+                 bind (of_rres S (resolve rfuel o' (JStr s))) (fun j =>
+                   match to_str j with
+                   | Some r => ret (VJ (JStr r))
+                   | None => fail CUnmodelled false
+                   end)))).
+  Proof. reflexivity. Qed.
+  Lemma eval_comp_E e effects o :
+    eval (EComp e effects) o =
+      wrap_eval (bind (eval e o) (fun v =>
+                 bind (if effects_opt_off o then ret tt else iterM S (effect_run o v) effects) (fun _ => ret v))).
+  Proof. reflexivity. Qed.
+  Lemma eval_logged_E e o :
+    eval (ELogged e) o =
+      wrap_eval (bind (emit EvLogReq) (fun _ =>
+                 bind (if cfg.(log_ctx_off) || logging_opt_off o then ret tt else emit EvLogEmit) (fun _ =>
+                 eval e o))).
+  Proof. reflexivity. Qed.
+  Lemma eval_pipe_E steps o :
+    eval (EPipe steps) o =
+      wrap_eval (bind (mapM S (fun x => eval x o) steps) (fun fs => ret (VF B_COMPOSE (rev fs) []))).
+  Proof. reflexivity. Qed.
+  Lemma eval_alloptions_E o : eval EAllOptions o = wrap_eval (all_options_eval S rfuel o).
+  Proof. reflexivity. Qed.
+
+  (** *** validate *)
+  Lemma validate_value_E v o : validate (EValue v) o = ret tt.
+  Proof. reflexivity. Qed.
+  Lemma validate_option_E k dflt dom o :
+    validate (EOption k dflt dom) o =
+      bind (rd S k o) (fun r =>
+        match r with
+        | TypeErr => fail CType false
+        | Found _ => bind (wrap_eval (option_eval S ucall rfuel (fun x => eval x o) k dflt dom o)) (fun _ => ret tt)
+        | Absent => dflt_or dflt (fun d => validate d o) (fail (CKey k) true)
+        end).
+  Proof. reflexivity. Qed.
+  Lemma validate_apply_E src fn o :
+    validate (EApply src fn) o = bind (validate src o) (fun _ => validate fn o).
+  Proof. reflexivity. Qed.
+  Lemma validate_bind_E src tbl dflt o :
+    validate (EBind src tbl dflt) o =
+      bind (validate src o) (fun _ => bind (eval src o) (fun x =>
+        pick x (fun b => validate b o) (dflt_or dflt (fun d => validate d o) (fail (CUser 0) false)) tbl)).
+  Proof. reflexivity. Qed.
+  Lemma validate_switch_E disp tbl dflt o :
+    validate (ESwitch disp tbl dflt) o =
+      bind (dispatch_value S (eval disp o) (is_some dflt)) (fun dv =>
+        match dv with
+        | None => dflt_or dflt (fun d => validate d o) (fail CUnmodelled false)
+        | Some k => if negb (hashable k) then fail CType false
+                    else pick k (fun b => validate b o) (dflt_or dflt (fun d => validate d o) (fail CSwitch true)) tbl
+        end).
+  Proof. reflexivity. Qed.
+  Lemma validate_case_E disp cases dflt o :
+    validate (ECase disp cases dflt) o =
+      bind (validate disp o) (fun _ => bind (eval disp o) (fun x =>
+        case_loop o x (dflt_or dflt (fun d => validate d o) (fail CCase true)) (fun r => validate r o) cases)).
+  Proof. reflexivity. Qed.
+  Lemma validate_coalesce_E ms o :
+    validate (ECoalesce ms) o = coal_loop o (fun m => validate m o) ms None.
+  Proof. reflexivity. Qed.
+  Lemma validate_iter_E es o : validate (EIter es) o = iterM S (fun x => validate x o) es.
+  Proof. reflexivity. Qed.
+  Lemma validate_map_E e its o :
+    validate (EMap e its) o =
+      bind (map_rows S (fun x => eval x o) its) (fun rows =>
+        iterM S (fun row => bind (row_options S row) (fun os => validate e (with_opts true os o))) rows).
+  Proof. reflexivity. Qed.
+  Lemma validate_with_E force p e o : validate (EWith force p e) o = validate e (with_opts force p o).
+  Proof. reflexivity. Qed.
+  Lemma validate_cached_none_E e o : validate (ECached CNone e) o = validate e o.
+  Proof. reflexivity. Qed.
+  Lemma validate_cached_mem_E cid e o :
+    validate (ECached (CMem cid) e) o =
+      if cache_off o then validate e o
+      else bind (keys e o) (fun ks => bind (fingerprint_of S ks o) (fun f => bind (get_store S) (fun s =>
+             match mem_find cid f s with
+             | Some _ => bind (emit (EvCacheExists cid true)) (fun _ => ret tt)
+             | None => bind (emit (EvCacheExists cid false)) (fun _ => validate e o)
+             end))).
+  Proof. reflexivity. Qed.
+  Lemma validate_call_E p f args kwargs o :
+    validate (ECall p f args kwargs) o =
+      bind (validate f o) (fun _ => bind (iterM S (fun x => validate x o) args) (fun _ =>
+        iterM S (fun x => validate x o) kwargs)).
+  Proof. reflexivity. Qed.
+  Definition validate_ref (o : dict) (k : key) : M unit :=
+    bind (rd S k o) (fun r =>
+      match r with
+      | TypeErr => fail CType false
+      | Absent => fail (CKey k) true
+      | Found raw =>
+          bind (emit_reads S (resolve_reads rfuel o raw) o) (fun _ =>
+          bind (wrap_eval (of_rres S (resolve rfuel o raw))) (fun _ => ret tt))
+      end).
+  Lemma validate_template_E s ps o :
+    validate (ETemplate s ps) o =
+      bind (iterM S (fun pe => validate (snd pe) o) ps) (fun _ => iterM S (validate_ref o) (refs s)).
+  Proof. reflexivity. Qed.
+  Lemma validate_comp_E e effects o :
+    validate (EComp e effects) o =
+      bind (validate e o) (fun _ =>
+        if effects_opt_off o then ret tt else iterM S (fun x => validate x o) effects).
+  Proof. reflexivity. Qed.
+  Lemma validate_logged_E e o : validate (ELogged e) o = validate e o.
+  Proof. reflexivity. Qed.
+  Lemma validate_pipe_E steps o : validate (EPipe steps) o = iterM S (fun x => validate x o) steps.
+  Proof. reflexivity. Qed.
+  Lemma validate_alloptions_E o :
+    validate EAllOptions o = bind (wrap_eval (all_options_eval S rfuel o)) (fun _ => ret tt).
+  Proof. reflexivity. Qed.
+
+  (** *** keys *)
+  Definition has_par (s : str) : bool := existsb (fun t => match t with TPar _ => true | _ => false end) s.
+
+  Lemma keys_value_E v o : keys (EValue v) o = ret [].
+  Proof. reflexivity. Qed.
+  Lemma keys_option_E k dflt dom o :
+    keys (EOption k dflt dom) o =
+      bind (rd S k o) (fun r =>
+        match r with
+        | TypeErr => fail CType false
+        | Found (JStr s) =>
+            if has_par s then fail CUnmodelled false
+            else bind (unionM S (fun k' => ref_keys S rfuel true o k') (refs s)) (fun ks => ret (k :: ks))
+        | Found _ => ret [k]
+        | Absent => dflt_or dflt (fun d => keys d o) (fail (CKey k) true)
+        end).
+  Proof. reflexivity. Qed.
+  Lemma keys_apply_E src fn o :
+    keys (EApply src fn) o = bind (keys src o) (fun a => bind (keys fn o) (fun b => ret (a ++ b))).
+  Proof. reflexivity. Qed.
+  Lemma keys_bind_E src tbl dflt o :
+    keys (EBind src tbl dflt) o =
+      bind (keys src o) (fun a => bind (eval src o) (fun x =>
+      bind (pick x (fun b => keys b o) (dflt_or dflt (fun d => keys d o) (fail (CUser 0) false)) tbl) (fun b =>
+      ret (a ++ b)))).
+  Proof. reflexivity. Qed.
+  Lemma keys_switch_E disp tbl dflt o :
+    keys (ESwitch disp tbl dflt) o =
+      bind (dispatch_value S (eval disp o) (is_some dflt)) (fun dv =>
+        match dv with
+        | None => dflt_or dflt (fun d => keys d o) (fail CUnmodelled false)
+        | Some k =>
+            if negb (hashable k) then fail CType false
+            else bind (pick k (fun b => keys b o) (dflt_or dflt (fun d => keys d o) (fail CSwitch true)) tbl) (fun a =>
+                 bind (keys disp o) (fun b => ret (a ++ b)))
+        end).
+  Proof. reflexivity. Qed.
+  Lemma keys_case_E disp cases dflt o :
+    keys (ECase disp cases dflt) o =
+      bind (keys disp o) (fun a => bind (eval disp o) (fun x =>
+      bind (case_loop o x (dflt_or dflt (fun d => keys d o) (fail CCase true)) (fun r => keys r o) cases) (fun b =>
+      ret (a ++ b)))).
+  Proof. reflexivity. Qed.
+  Lemma keys_coalesce_E ms o :
+    keys (ECoalesce ms) o = coal_loop o (fun m => keys m o) ms None.
+  Proof. reflexivity. Qed.
+  Lemma keys_iter_E es o : keys (EIter es) o = unionM S (fun x => keys x o) es.
+  Proof. reflexivity. Qed.
+  Lemma keys_map_E e its o :
+    keys (EMap e its) o =
+      bind (map_rows S (fun x => eval x o) its) (fun rows =>
+      bind (unionM S (fun row => bind (row_options S row) (fun os =>
+                        bind (keys e (with_opts true os o)) (fun ks =>
+                        filter_preset S true os o (with_opts true os o) ks))) rows) (fun a =>
+      bind (unionM S (fun kv => keys (snd kv) o) its) (fun b => ret (a ++ b)))).
+  Proof. reflexivity. Qed.
+  Lemma keys_with_E force p e o :
+    keys (EWith force p e) o =
+      bind (keys e (with_opts force p o)) (fun ks => filter_preset S force p o (with_opts force p o) ks).
+  Proof. reflexivity. Qed.
+  Lemma keys_cached_E c e o : keys (ECached c e) o = keys e o.
+  Proof. reflexivity. Qed.
+  Lemma keys_call_E p f args kwargs o :
+    keys (ECall p f args kwargs) o =
+      bind (keys f o) (fun a => bind (unionM S (fun x => keys x o) args) (fun b =>
+      bind (unionM S (fun x => keys x o) kwargs) (fun c => ret (a ++ b ++ c)))).
+  Proof. reflexivity. Qed.
+  Lemma keys_template_E s ps o :
+    keys (ETemplate s ps) o =
+      bind (unionM S (fun pe => keys (snd pe) o) ps) (fun a =>
+      bind (unionM S (fun k => ref_keys S rfuel true o k) (refs s)) (fun b => ret (a ++ b))).
+  Proof. reflexivity. Qed.
+  Lemma keys_comp_E e effects o : keys (EComp e effects) o = keys e o.
+  Proof. reflexivity. Qed.
+  Lemma keys_logged_E e o : keys (ELogged e) o = keys e o.
+  Proof. reflexivity. Qed.
+  Lemma keys_pipe_E steps o : keys (EPipe steps) o = unionM S (fun x => keys x o) steps.
+  Proof. reflexivity. Qed.
+  Lemma keys_alloptions_E o :
+    keys EAllOptions o = bind (emit EvReadAll) (fun _ => ret (map (fun kv => [fst kv]) o)).
+  Proof. reflexivity. Qed.
+
+  Lemma option_eval_E ev k dflt dom o :
+    option_eval S ucall rfuel ev k dflt dom o =
+      bind (rd S k o) (fun r =>
+      bind (match r with
+            | TypeErr => fail CType false
+            | Absent => match dflt with None => fail (CKey k) true | Some d => ev d end
+            | Found raw =>
+                bind (emit_reads S (resolve_reads rfuel o raw) o) (fun _ =>
+                bind (of_rres S (resolve rfuel o raw)) (fun j => ret (VJ j)))
+            end) (fun v =>
+      match dom with
+      | None => ret v
+      | Some de => bind (ev de) (fun d => bind (in_domain S ucall d v) (fun _ => ret v))
+      end)).
+  Proof. reflexivity. Qed.
+
+  Lemma rd_E k o s :
+    rd S k o s = (Ok (lookup k (JObj o)), s,
+                  [EvRead k (match lookup k (JObj o) with Found _ => true | _ => false end)]).
+  Proof. reflexivity. Qed.
+
+  (** induction on values (nested through argument lists) *)
+  Section ValueInd.
+    Variable P : value -> Prop.
+    Hypothesis HJ : forall j, P (VJ j).
+    Hypothesis HT : forall t args, Forall P args -> P (VT t args).
+    Hypothesis HF : forall f pre post, Forall P pre -> Forall P post -> P (VF f pre post).
+    Hypothesis HM : P VMissing.
+    Hypothesis HE : forall c, P (VErr c).
+    Fixpoint value_ind' (v : value) : P v :=
+      let all := fix all (l : list value) : Forall P l :=
+        match l with [] => Forall_nil _ | x :: l' => Forall_cons _ (value_ind' x) (all l') end in
+      match v with
+      | VJ j => HJ j
+      | VT t args => HT t args (all args)
+      | VF f pre post => HF f pre post (all pre) (all post)
+      | VMissing => HM
+      | VErr c => HE c
+      end.
+  End ValueInd.
+
+  Definition compose_loop : list value -> value -> M value :=
+    fix go (fs : list value) (acc : value) {struct fs} : M value :=
+      match fs with
+      | [] => ret acc
+      | g :: fs' => bind (call_value g acc) (fun y => go fs' y)
+      end.
+  Lemma call_value_VF fid pre post x :
+    call_value (VF fid pre post) x =
+      if N.eqb fid B_COMPOSE then compose_loop pre x else call_fun S ucall fid (pre ++ [x] ++ post).
+  Proof. reflexivity. Qed.
+  Lemma ref_keys_S fuel strict o k :
+    ref_keys S (Datatypes.S fuel) strict o k =
+      bind (rd S k o) (fun r =>
+        match r with
+        | Found (JStr s) =>
+            if has_par s then fail CUnmodelled false
+            else bind (unionM S (fun k' => ref_keys S fuel strict o k') (refs s)) (fun ks => ret (k :: ks))
+        | Found _ => ret [k]
+        | Absent => if strict then fail (CKey k) true else ret [k]
+        | TypeErr => fail CType false
+        end).
+  Proof. reflexivity. Qed.
+
+  (** ** 3. The store frame.  [R] is any reflexive, transitive relation between stores that
+      every store operation on a permitted cache respects; then every run of evaluate /
+      validate / keys of an expression that mentions only permitted caches relates its initial
+      store to its final store.  (Instances: "cache c is untouched" with every other cache
+      permitted; "entries are never removed" with every cache permitted.) *)
+  Section StoreFrame.
+    Variable R : S -> S -> Prop.
+    Hypothesis R_refl : forall s, R s s.
+    Hypothesis R_trans : forall a b c, R a b -> R b c -> R a c.
+    Variable allowed : N -> bool.
+    Hypothesis R_store : forall c f v s, allowed c = true -> R s (mem_store c f v s).
+
+    Definition fr {A} (m : M A) : Prop := forall s r s' l, m s = (r, s', l) -> R s s'.
+
+    Lemma fr_ret {A} (a : A) : fr (ret a).
+    Proof. intros s r s' l H. inversion H; subst. apply R_refl. Qed.
+    Lemma fr_fail {A} c ee : fr (@Eval.fail S A c ee).
+    Proof. intros s r s' l H. inversion H; subst. apply R_refl. Qed.
+    Lemma fr_emit ev : fr (emit ev).
+    Proof. intros s r s' l H. inversion H; subst. apply R_refl. Qed.
+    Lemma fr_get_store : fr (get_store S).
+    Proof. intros s r s' l H. inversion H; subst. apply R_refl. Qed.
+    Lemma fr_put_store c f v : allowed c = true -> fr (put_store S (mem_store c f v)).
+    Proof. intros Ha s r s' l H. inversion H; subst. now apply R_store. Qed.
+    Lemma fr_bind {A B} (m : M A) (f : A -> M B) : fr m -> (forall a, fr (f a)) -> fr (bind m f).
+    Proof.
+      intros Hm Hf s r s' l H. unfold Eval.bind in H.
+      destruct (m s) as [[[a|c ee] s1] l1] eqn:E.
+      - destruct (f a s1) as [[r2 s2] l2] eqn:E2. inversion H; subst.
+        eapply R_trans; [eapply Hm; eauto|eapply Hf; eauto].
+      - inversion H; subst. eapply Hm; eauto.
+    Qed.
+    Lemma fr_catch {A} (m : M A) h : fr m -> (forall c ee, fr (h c ee)) -> fr (catch m h).
+    Proof.
+      intros Hm Hh s r s' l H. unfold Eval.catch in H.
+      destruct (m s) as [[[a|c ee] s1] l1] eqn:E.
+      - inversion H; subst. eapply Hm; eauto.
+      - destruct (h c ee s1) as [[r2 s2] l2] eqn:E2.
+        assert (R s s1) by (eapply Hm; eauto).
+        assert (R s1 s2) by (eapply Hh; eauto).
+        destruct c; inversion H; subst; eauto.
+    Qed.
+    Lemma fr_wrap {A} (m : M A) : fr m -> fr (wrap_eval m).
+    Proof.
+      intros Hm s r s' l H. unfold Eval.wrap_eval in H.
+      destruct (m s) as [[[a|c ee] s1] l1] eqn:E; inversion H; subst; eapply Hm; eauto.
+    Qed.
+    Lemma fr_mapM {A B} (f : A -> M B) l : (forall a, In a l -> fr (f a)) -> fr (mapM S f l).
+    Proof.
+      induction l as [|a l IH]; intros H; [apply fr_ret|]. rewrite mapM_cons.
+      apply fr_bind; [apply H; now left|]. intros b. apply fr_bind; [|intros; apply fr_ret].
+      apply IH. intros x Hx. apply H. now right.
+    Qed.
+    Lemma fr_iterM {A} (f : A -> M unit) l : (forall a, In a l -> fr (f a)) -> fr (iterM S f l).
+    Proof.
+      induction l as [|a l IH]; intros H; [apply fr_ret|]. rewrite iterM_cons.
+      apply fr_bind; [apply H; now left|]. intros _. apply IH. intros x Hx. apply H. now right.
+    Qed.
+    Lemma fr_unionM {A} (f : A -> M (list key)) l : (forall a, In a l -> fr (f a)) -> fr (unionM S f l).
+    Proof.
+      induction l as [|a l IH]; intros H; [apply fr_ret|]. rewrite unionM_cons.
+      apply fr_bind; [apply H; now left|]. intros b. apply fr_bind; [|intros; apply fr_ret].
+      apply IH. intros x Hx. apply H. now right.
+    Qed.
+    Lemma fr_pick {A} k (onhit : expr -> M A) onmiss tbl :
+      (forall ve, In ve tbl -> fr (onhit (snd ve))) -> fr onmiss -> fr (pick k onhit onmiss tbl).
+    Proof.
+      intros Hh Hm. induction tbl as [|[v b] tbl IH]; [exact Hm|]. cbn [pick].
+      destruct (value_eq k v).
+      - apply (Hh (v, b)). now left.
+      - apply IH. intros ve Hve. apply Hh. now right.
+    Qed.
+    Lemma fr_dflt_or {A} dflt (f : expr -> M A) none :
+      (forall d, dflt = Some d -> fr (f d)) -> fr none -> fr (dflt_or dflt f none).
+    Proof. intros Hf Hn. destruct dflt as [d|]; cbn; [now apply Hf|exact Hn]. Qed.
+
+    Ltac fr_step :=
+      match goal with
+      | |- fr (Eval.bind _ _ _) => apply fr_bind; [|intros ?]
+      | |- fr (Eval.ret _ _) => apply fr_ret
+      | |- fr (Eval.fail _ _ _) => apply fr_fail
+      | |- fr (Eval.emit _ _) => apply fr_emit
+      | |- fr (Eval.get_store _) => apply fr_get_store
+      | |- fr (Eval.catch _ _ _) => apply fr_catch; [|intros ? ?]
+      | |- fr (Eval.wrap_eval _ _) => apply fr_wrap
+      | H : fr ?m |- fr ?m => exact H
+      | |- fr (if ?b then _ else _) => destruct b
+      | |- fr (match ?x with _ => _ end) => destruct x
+      end.
+    Ltac fr_tac := repeat fr_step.
+
+    (** the primitives never touch the store *)
+    Lemma fr_force_elems v : fr (force_elems S v).
+    Proof. unfold force_elems. fr_tac. Qed.
+    Lemma fr_call_fun f args : fr (call_fun S ucall f args).
+    Proof. unfold call_fun. fr_tac; try apply fr_force_elems. Qed.
+    Lemma fr_call_value f : forall x, fr (call_value f x).
+    Proof.
+      induction f using value_ind'; intros x; try (cbn; apply fr_fail).
+      rewrite call_value_VF. destruct (N.eqb f B_COMPOSE); [|apply fr_call_fun].
+      clear H0. revert x. induction H as [|g pre Hg Hpre IH]; intros x; cbn [compose_loop].
+      - apply fr_ret.
+      - apply fr_bind; [apply Hg|]. intros y. apply IH.
+    Qed.
+    Lemma fr_call_value_n f args : fr (call_value_n S ucall f args).
+    Proof. unfold call_value_n. fr_tac. apply fr_call_fun. Qed.
+    Lemma fr_rd k o : fr (rd S k o).
+    Proof. unfold rd. fr_tac. Qed.
+    Lemma fr_of_rres r : fr (of_rres S r).
+    Proof. unfold of_rres. fr_tac. Qed.
+    Lemma fr_emit_reads ks o : fr (emit_reads S ks o).
+    Proof. unfold emit_reads. apply fr_iterM. intros. apply fr_emit. Qed.
+    Lemma fr_ref_keys fuel strict o : forall k, fr (ref_keys S fuel strict o k).
+    Proof.
+      induction fuel as [|fuel IH]; intros k; [apply fr_fail|].
+      rewrite ref_keys_S. apply fr_bind; [apply fr_rd|]. intros r.
+      destruct r as [[]| |]; fr_tac. apply fr_unionM. intros; apply IH.
+    Qed.
+    Lemma fr_in_domain d v : fr (in_domain S ucall d v).
+    Proof.
+      unfold in_domain. destruct d; fr_tac; apply fr_call_value.
+    Qed.
+    Lemma fr_filter_preset force p o mixed ks : fr (filter_preset S force p o mixed ks).
+    Proof. induction ks as [|k ks IH]; cbn [filter_preset]; fr_tac. Qed.
+    Lemma fr_fingerprint_of ks o : fr (fingerprint_of S ks o).
+    Proof. unfold fingerprint_of. apply fr_mapM. intros. fr_tac. Qed.
+    Lemma fr_row_options row : fr (row_options S row).
+    Proof. unfold row_options. fr_tac. Qed.
+    Lemma fr_all_options_eval o : fr (all_options_eval S rfuel o).
+    Proof. unfold all_options_eval. fr_tac. apply fr_of_rres. Qed.
+
+    (** the combinators that take the evaluator of sub-expressions *)
+    Lemma fr_option_eval ev k dflt dom o :
+      (forall d, dflt = Some d -> fr (ev d)) -> (forall d, dom = Some d -> fr (ev d)) ->
+      fr (option_eval S ucall rfuel ev k dflt dom o).
+    Proof.
+      intros Hd Hm. rewrite option_eval_E. apply fr_bind; [apply fr_rd|]. intros r.
+      apply fr_bind.
+      - destruct r as [raw| |]; [| |apply fr_fail].
+        + fr_tac; [apply fr_emit_reads|apply fr_of_rres].
+        + destruct dflt as [d|]; [now apply Hd|apply fr_fail].
+      - intros v. destruct dom as [de|]; [|apply fr_ret].
+        apply fr_bind; [now apply Hm|]. intros d. apply fr_bind; [apply fr_in_domain|]. intros; apply fr_ret.
+    Qed.
+    Lemma fr_dispatch_value ev b : fr ev -> fr (dispatch_value S ev b).
+    Proof. intros H. unfold dispatch_value. fr_tac. Qed.
+    Lemma fr_map_rows ev its : (forall kv, In kv its -> fr (ev (snd kv))) -> fr (map_rows S ev its).
+    Proof.
+      intros H. unfold map_rows. apply fr_bind; [|intros; apply fr_ret].
+      apply fr_mapM. intros kv Hkv. apply fr_bind; [now apply H|]. intros; apply fr_force_elems.
+    Qed.
+    Lemma fr_template_options ev ps o :
+      (forall pe, In pe ps -> fr (ev (snd pe))) -> fr (template_options S ev ps o).
+    Proof.
+      intros H. unfold template_options. apply fr_bind.
+      - apply fr_mapM. intros pe Hpe. apply fr_bind; [now apply H|]. intros; apply fr_ret.
+      - intros pvs. fr_tac.
+    Qed.
+    Lemma fr_case_loop {A} o x (fin : M A) sel cases :
+      fr fin -> (forall cr, In cr cases -> fr (eval (fst cr) o) /\ fr (sel (snd cr))) ->
+      fr (case_loop o x fin sel cases).
+    Proof.
+      intros Hf H. induction cases as [|[c r] cases IH]; [exact Hf|]. cbn [case_loop].
+      destruct (H (c, r) (or_introl eq_refl)) as [Hc Hr]. cbn [fst snd] in *.
+      apply fr_bind; [exact Hc|]. intros p. apply fr_bind; [apply fr_call_value|]. intros b.
+      destruct (truthy b); [exact Hr|]. apply IH. intros cr Hcr. apply H. now right.
+    Qed.
+    Lemma fr_coal_loop {A} o (act : expr -> M A) ms :
+      (forall m, In m ms -> fr (validate m o) /\ fr (act m)) -> forall last, fr (coal_loop o act ms last).
+    Proof.
+      induction ms as [|m ms IH]; intros H last; cbn [coal_loop].
+      - destruct last as [[c ee]|]; apply fr_fail.
+      - destruct (H m (or_introl eq_refl)) as [Hv Ha].
+        apply fr_catch; [apply fr_bind; [exact Hv|intros; exact Ha]|].
+        intros c ee. destruct ee; [|apply fr_fail]. apply IH. intros x Hx. apply H. now right.
+    Qed.
+    Lemma fr_iter_loop o es : (forall x, In x es -> fr (eval x o)) -> fr (iter_loop o es).
+    Proof.
+      induction es as [|x es IH]; intros H; cbn [iter_loop]; [apply fr_ret|].
+      apply fr_catch; [|intros; apply fr_ret].
+      apply fr_bind; [apply H; now left|]. intros v. destruct (is_some (deep_err v)); [apply fr_ret|].
+      apply fr_bind; [|intros; apply fr_ret]. apply IH. intros y Hy. apply H. now right.
+    Qed.
+    Lemma fr_map_loop o e rows : (forall o', fr (eval e o')) -> fr (map_loop o e rows).
+    Proof.
+      intros H. induction rows as [|[row os] rows IH]; cbn [map_loop]; [apply fr_ret|].
+      apply fr_catch; [|intros; apply fr_ret].
+      apply fr_bind; [apply H|]. intros v. destruct (is_some (deep_err v)); [apply fr_ret|].
+      apply fr_bind; [exact IH|intros; apply fr_ret].
+    Qed.
+
+    (** every cache named in the expression is permitted *)
+    Definition optb (f : expr -> bool) (x : option expr) : bool :=
+      match x with Some d => f d | None => true end.
+    Fixpoint caches_allowed (e : expr) : bool :=
+      match e with
+      | EValue _ => true
+      | EOption _ dflt dom => optb caches_allowed dflt && optb caches_allowed dom
+      | EApply src fn => caches_allowed src && caches_allowed fn
+      | EBind src tbl dflt | ESwitch src tbl dflt =>
+          caches_allowed src && forallb (fun ve => caches_allowed (snd ve)) tbl && optb caches_allowed dflt
+      | ECase disp cases dflt =>
+          caches_allowed disp
+          && forallb (fun cr => caches_allowed (fst cr) && caches_allowed (snd cr)) cases
+          && optb caches_allowed dflt
+      | ECoalesce ms | EIter ms | EPipe ms => forallb caches_allowed ms
+      | EMap e its => caches_allowed e && forallb (fun ke => caches_allowed (snd ke)) its
+      | EWith _ _ e | ELogged e => caches_allowed e
+      | ECached c e => match c with CMem cid => allowed cid | CNone => true end && caches_allowed e
+      | ECall _ f args kwargs => caches_allowed f && forallb caches_allowed args && forallb caches_allowed kwargs
+      | ETemplate _ ps => forallb (fun pe => caches_allowed (snd pe)) ps
+      | EComp e effects => caches_allowed e && forallb caches_allowed effects
+      | EAllOptions => true
+      end.
+
+    Definition fr3 (e : expr) : Prop :=
+      forall o, fr (eval e o) /\ fr (validate e o) /\ fr (keys e o).
+    Definition PP (e : expr) : Prop := caches_allowed e = true -> fr3 e.
+
+    Lemma opt_use dflt : Popt PP dflt -> optb caches_allowed dflt = true -> forall d, dflt = Some d -> fr3 d.
+    Proof. intros H1 H2 d ->. cbn in *. auto. Qed.
+    Lemma list_use l : Forall PP l -> forallb caches_allowed l = true -> forall x, In x l -> fr3 x.
+    Proof.
+      intros H1 H2 x Hx. rewrite Forall_forall in H1. rewrite forallb_forall in H2.
+      apply H1; auto.
+    Qed.
+    Lemma snd_use {K} (l : list (K * expr)) :
+      Forall (fun ve => PP (snd ve)) l -> forallb (fun ve => caches_allowed (snd ve)) l = true ->
+      forall ve, In ve l -> fr3 (snd ve).
+    Proof.
+      intros H1 H2 x Hx. rewrite Forall_forall in H1. rewrite forallb_forall in H2.
+      apply H1; auto.
+    Qed.
+    Lemma cases_use cases :
+      Forall (fun cr => PP (fst cr) /\ PP (snd cr)) cases ->
+      forallb (fun cr => caches_allowed (fst cr) && caches_allowed (snd cr)) cases = true ->
+      forall cr, In cr cases -> fr3 (fst cr) /\ fr3 (snd cr).
+    Proof.
+      intros H1 H2 x Hx. rewrite Forall_forall in H1. rewrite forallb_forall in H2.
+      specialize (H1 x Hx). specialize (H2 x Hx). apply andb_prop in H2 as [Ha Hb].
+      destruct H1 as [P1 P2]. split; auto.
+    Qed.
+
+    Ltac fr_ih :=
+      match goal with
+      | H : fr3 ?x |- fr (Eval.eval _ _ _ _ _ _ _ ?x ?o) => exact (proj1 (H o))
+      | H : fr3 ?x |- fr (Eval.validate _ _ _ _ _ _ _ ?x ?o) => exact (proj1 (proj2 (H o)))
+      | H : fr3 ?x |- fr (Eval.keys _ _ _ _ _ _ _ ?x ?o) => exact (proj2 (proj2 (H o)))
+      end.
+    (* children reached through a list / option / pair hypothesis *)
+    Ltac fr_child :=
+      match goal with
+      | H : forall x, In x ?l -> fr3 x, Hx : In ?y ?l |- _ => pose proof (H y Hx); clear Hx; fr_ih
+      | H : forall ve, In ve ?l -> fr3 (snd ve), Hx : In ?y ?l |- _ => pose proof (H y Hx); clear Hx; fr_ih
+      | H : forall d, ?dflt = Some d -> fr3 d, Hx : ?dflt = Some ?y |- _ => pose proof (H y Hx); clear Hx; fr_ih
+      end.
+    Ltac fr_go := repeat first [fr_ih | fr_child | fr_step].
+
+    Lemma frame_EOption k dflt dom : Popt PP dflt -> Popt PP dom -> PP (EOption k dflt dom).
+    Proof.
+      intros Hd Hm Hc. cbn [caches_allowed] in Hc. apply andb_prop in Hc as [C1 C2].
+      pose proof (opt_use _ Hd C1) as Ud. pose proof (opt_use _ Hm C2) as Um.
+      assert (Hev : forall o, fr (option_eval S ucall rfuel (fun x => eval x o) k dflt dom o)).
+      { intros o. apply fr_option_eval; intros d Ed; fr_go. }
+      intros o. split; [|split].
+      - rewrite eval_option_unfold. apply fr_wrap. apply Hev.
+      - rewrite validate_option_E. apply fr_bind; [apply fr_rd|]. intros r.
+        destruct r as [raw| |]; [| |apply fr_fail].
+        + apply fr_bind; [apply fr_wrap, Hev|intros; apply fr_ret].
+        + apply fr_dflt_or; [|apply fr_fail]. intros d Ed. fr_go.
+      - rewrite keys_option_E. apply fr_bind; [apply fr_rd|]. intros r.
+        destruct r as [[]| |]; try apply fr_ret; try apply fr_fail.
+        + destruct (has_par s); [apply fr_fail|]. apply fr_bind; [|intros; apply fr_ret].
+          apply fr_unionM. intros; apply fr_ref_keys.
+        + apply fr_dflt_or; [|apply fr_fail]. intros d Ed. fr_go.
+    Qed.
+
+    Lemma frame_EApply src fn : PP src -> PP fn -> PP (EApply src fn).
+    Proof.
+      intros H1 H2 Hc. cbn [caches_allowed] in Hc. apply andb_prop in Hc as [C1 C2].
+      specialize (H1 C1). specialize (H2 C2). intros o. split; [|split].
+      - rewrite eval_apply_E. fr_go. apply fr_call_value.
+      - rewrite validate_apply_E. fr_go.
+      - rewrite keys_apply_E. fr_go.
+    Qed.
+
+    Lemma frame_EBind src tbl dflt :
+      PP src -> Forall (fun ve => PP (snd ve)) tbl -> Popt PP dflt -> PP (EBind src tbl dflt).
+    Proof.
+      intros H1 H2 H3 Hc. cbn [caches_allowed] in Hc.
+      apply andb_prop in Hc as [Hc C3]. apply andb_prop in Hc as [C1 C2].
+      specialize (H1 C1). pose proof (snd_use _ H2 C2) as Ut. pose proof (opt_use _ H3 C3) as Ud.
+      intros o. split; [|split].
+      - rewrite eval_bind_E. fr_go. apply fr_pick; [intros ve Hve; fr_go|].
+        apply fr_dflt_or; [intros d Ed; fr_go|apply fr_fail].
+      - rewrite validate_bind_E. fr_go. apply fr_pick; [intros ve Hve; fr_go|].
+        apply fr_dflt_or; [intros d Ed; fr_go|apply fr_fail].
+      - rewrite keys_bind_E. fr_go. apply fr_pick; [intros ve Hve; fr_go|].
+        apply fr_dflt_or; [intros d Ed; fr_go|apply fr_fail].
+    Qed.
+
+    Lemma frame_ESwitch disp tbl dflt :
+      PP disp -> Forall (fun ve => PP (snd ve)) tbl -> Popt PP dflt -> PP (ESwitch disp tbl dflt).
+    Proof.
+      intros H1 H2 H3 Hc. cbn [caches_allowed] in Hc.
+      apply andb_prop in Hc as [Hc C3]. apply andb_prop in Hc as [C1 C2].
+      specialize (H1 C1). pose proof (snd_use _ H2 C2) as Ut. pose proof (opt_use _ H3 C3) as Ud.
+      intros o. split; [|split].
+      - rewrite eval_switch_E. apply fr_wrap. apply fr_bind; [apply fr_dispatch_value; fr_go|].
+        intros [k|]; [|apply fr_dflt_or; [intros d Ed; fr_go|apply fr_fail]].
+        destruct (negb (hashable k)); [apply fr_fail|].
+        apply fr_pick; [intros ve Hve; fr_go|]. apply fr_dflt_or; [intros d Ed; fr_go|apply fr_fail].
+      - rewrite validate_switch_E. apply fr_bind; [apply fr_dispatch_value; fr_go|].
+        intros [k|]; [|apply fr_dflt_or; [intros d Ed; fr_go|apply fr_fail]].
+        destruct (negb (hashable k)); [apply fr_fail|].
+        apply fr_pick; [intros ve Hve; fr_go|]. apply fr_dflt_or; [intros d Ed; fr_go|apply fr_fail].
+      - rewrite keys_switch_E. apply fr_bind; [apply fr_dispatch_value; fr_go|].
+        intros [k|]; [|apply fr_dflt_or; [intros d Ed; fr_go|apply fr_fail]].
+        destruct (negb (hashable k)); [apply fr_fail|].
+        apply fr_bind; [|intros; fr_go].
+        apply fr_pick; [intros ve Hve; fr_go|]. apply fr_dflt_or; [intros d Ed; fr_go|apply fr_fail].
+    Qed.
+
+    Lemma frame_ECase disp cases dflt :
+      PP disp -> Forall (fun cr => PP (fst cr) /\ PP (snd cr)) cases -> Popt PP dflt ->
+      PP (ECase disp cases dflt).
+    Proof.
+      intros H1 H2 H3 Hc. cbn [caches_allowed] in Hc.
+      apply andb_prop in Hc as [Hc C3]. apply andb_prop in Hc as [C1 C2].
+      specialize (H1 C1). pose proof (cases_use _ H2 C2) as Uc. pose proof (opt_use _ H3 C3) as Ud.
+      intros o. split; [|split].
+      - rewrite eval_case_E. apply fr_wrap. apply fr_bind; [fr_go|]. intros x.
+        apply fr_case_loop; [apply fr_dflt_or; [intros d Ed; fr_go|apply fr_fail]|].
+        intros cr Hcr. destruct (Uc cr Hcr) as [Ua Ub]. split; fr_go.
+      - rewrite validate_case_E. apply fr_bind; [fr_go|]. intros _. apply fr_bind; [fr_go|]. intros x.
+        apply fr_case_loop; [apply fr_dflt_or; [intros d Ed; fr_go|apply fr_fail]|].
+        intros cr Hcr. destruct (Uc cr Hcr) as [Ua Ub]. split; fr_go.
+      - rewrite keys_case_E. apply fr_bind; [fr_go|]. intros a. apply fr_bind; [fr_go|]. intros x.
+        apply fr_bind; [|intros; apply fr_ret].
+        apply fr_case_loop; [apply fr_dflt_or; [intros d Ed; fr_go|apply fr_fail]|].
+        intros cr Hcr. destruct (Uc cr Hcr) as [Ua Ub]. split; fr_go.
+    Qed.
+
+    Lemma frame_ECoalesce ms : Forall PP ms -> PP (ECoalesce ms).
+    Proof.
+      intros H1 Hc. cbn [caches_allowed] in Hc. pose proof (list_use _ H1 Hc) as U.
+      intros o. split; [|split].
+      - rewrite eval_coalesce_E. apply fr_wrap. apply fr_coal_loop. intros m Hm.
+        pose proof (U m Hm). split; fr_go.
+      - rewrite validate_coalesce_E. apply fr_coal_loop. intros m Hm. pose proof (U m Hm). split; fr_go.
+      - rewrite keys_coalesce_E. apply fr_coal_loop. intros m Hm. pose proof (U m Hm). split; fr_go.
+    Qed.
+
+    Lemma frame_EIter es : Forall PP es -> PP (EIter es).
+    Proof.
+      intros H1 Hc. cbn [caches_allowed] in Hc. pose proof (list_use _ H1 Hc) as U.
+      intros o. split; [|split].
+      - rewrite eval_iter_E. apply fr_wrap. apply fr_bind; [|intros; apply fr_ret].
+        apply fr_iter_loop. intros x Hx. fr_go.
+      - rewrite validate_iter_E. apply fr_iterM. intros x Hx. fr_go.
+      - rewrite keys_iter_E. apply fr_unionM. intros x Hx. fr_go.
+    Qed.
+
+    Lemma frame_EMap e its : PP e -> Forall (fun ke => PP (snd ke)) its -> PP (EMap e its).
+    Proof.
+      intros H1 H2 Hc. cbn [caches_allowed] in Hc. apply andb_prop in Hc as [C1 C2].
+      specialize (H1 C1). pose proof (snd_use _ H2 C2) as Ui.
+      assert (Hrows : forall o, fr (map_rows S (fun x => eval x o) its)).
+      { intros o. apply fr_map_rows. intros kv Hkv. fr_go. }
+      intros o. split; [|split].
+      - rewrite eval_map_E. apply fr_wrap. apply fr_bind; [apply Hrows|]. intros rows.
+        apply fr_bind.
+        + apply fr_mapM. intros row _. apply fr_bind; [apply fr_row_options|intros; apply fr_ret].
+        + intros rowsos. apply fr_bind; [|intros; apply fr_ret]. apply fr_map_loop. intros o'. fr_go.
+      - rewrite validate_map_E. apply fr_bind; [apply Hrows|]. intros rows.
+        apply fr_iterM. intros row _. apply fr_bind; [apply fr_row_options|]. intros os. fr_go.
+      - rewrite keys_map_E. apply fr_bind; [apply Hrows|]. intros rows.
+        apply fr_bind.
+        + apply fr_unionM. intros row _. apply fr_bind; [apply fr_row_options|]. intros os.
+          apply fr_bind; [fr_go|]. intros ks. apply fr_filter_preset.
+        + intros a. apply fr_bind; [|intros; apply fr_ret]. apply fr_unionM. intros kv Hkv. fr_go.
+    Qed.
+
+    Lemma frame_EWith force p e : PP e -> PP (EWith force p e).
+    Proof.
+      intros H1 Hc. cbn [caches_allowed] in Hc. specialize (H1 Hc). intros o. split; [|split].
+      - rewrite eval_with_E. fr_go.
+      - rewrite validate_with_E. fr_go.
+      - rewrite keys_with_E. fr_go. apply fr_filter_preset.
+    Qed.
+
+    Lemma fr_fingerprint e o : fr3 e -> fr (fingerprint e o).
+    Proof. intros H. unfold fingerprint. apply fr_bind; [fr_go|]. intros; apply fr_fingerprint_of. Qed.
+
+    Lemma frame_ECached c e : PP e -> PP (ECached c e).
+    Proof.
+      intros H1 Hc. cbn [caches_allowed] in Hc. apply andb_prop in Hc as [Ca Ce].
+      specialize (H1 Ce). destruct c as [cid|].
+      - assert (Hsb : forall o v, fr (store_back cid e o v)).
+        { intros o v. unfold store_back. apply fr_bind; [now apply fr_fingerprint|]. intros f.
+          apply fr_bind; [now apply fr_put_store|]. intros _. apply fr_bind; [apply fr_emit|]. intros _.
+          apply fr_bind; [destruct (has_lazy v); [apply fr_emit|apply fr_ret]|]. intros _.
+          apply fr_bind; [now apply fr_fingerprint|]. intros f'. apply fr_bind; [apply fr_get_store|].
+          intros s. destruct (mem_find cid f' s); fr_go. }
+        assert (Hmiss : forall o, fr (miss_path cid e o)).
+        { intros o. unfold miss_path. apply fr_bind; [fr_go|]. intros v. apply Hsb. }
+        intros o. split; [|split].
+        + rewrite eval_cached_mem_E. apply fr_wrap. destruct (cache_off o); [fr_go|].
+          unfold cached_on. apply fr_bind; [destruct (site_ok e o); [apply fr_ret|apply fr_emit]|].
+          intros _. apply fr_bind; [now apply fr_fingerprint|]. intros f.
+          apply fr_bind; [apply fr_get_store|]. intros s.
+          destruct (mem_find cid f s).
+          * apply fr_bind; [apply fr_emit|]. intros _. apply fr_bind; [now apply fr_fingerprint|].
+            intros f2. apply fr_bind; [apply fr_get_store|]. intros s2.
+            destruct (mem_find cid f2 s2); (apply fr_bind; [apply fr_emit|]); intros _;
+              [apply fr_ret|apply Hmiss].
+          * apply fr_bind; [apply fr_emit|]. intros _. apply Hmiss.
+        + rewrite validate_cached_mem_E. destruct (cache_off o); [fr_go|].
+          apply fr_bind; [fr_go|]. intros ks. apply fr_bind; [apply fr_fingerprint_of|]. intros f.
+          apply fr_bind; [apply fr_get_store|]. intros s. destruct (mem_find cid f s); fr_go.
+        + rewrite keys_cached_E. fr_go.
+      - intros o. split; [|split].
+        + rewrite eval_cached_none_E. fr_go.
+        + rewrite validate_cached_none_E. fr_go.
+        + rewrite keys_cached_E. fr_go.
+    Qed.
+
+    Lemma frame_ECall partial f args kwargs :
+      PP f -> Forall PP args -> Forall PP kwargs -> PP (ECall partial f args kwargs).
+    Proof.
+      intros H1 H2 H3 Hc. cbn [caches_allowed] in Hc.
+      apply andb_prop in Hc as [Hc C3]. apply andb_prop in Hc as [C1 C2].
+      specialize (H1 C1). pose proof (list_use _ H2 C2) as Ua. pose proof (list_use _ H3 C3) as Uk.
+      intros o. split; [|split].
+      - rewrite eval_call_E. apply fr_wrap. apply fr_bind; [fr_go|]. intros fv.
+        apply fr_bind; [apply fr_mapM; intros x Hx; fr_go|]. intros av.
+        apply fr_bind; [apply fr_mapM; intros x Hx; fr_go|]. intros kv.
+        destruct partial; [destruct fv; fr_go|apply fr_call_value_n].
+      - rewrite validate_call_E. apply fr_bind; [fr_go|]. intros _.
+        apply fr_bind; [apply fr_iterM; intros x Hx; fr_go|]. intros _.
+        apply fr_iterM; intros x Hx; fr_go.
+      - rewrite keys_call_E. apply fr_bind; [fr_go|]. intros a.
+        apply fr_bind; [apply fr_unionM; intros x Hx; fr_go|]. intros b.
+        apply fr_bind; [apply fr_unionM; intros x Hx; fr_go|]. intros; apply fr_ret.
+    Qed.
+
+    Lemma frame_ETemplate s ps : Forall (fun pe => PP (snd pe)) ps -> PP (ETemplate s ps).
+    Proof.
+      intros H1 Hc. cbn [caches_allowed] in Hc. pose proof (snd_use _ H1 Hc) as U.
+      intros o. split; [|split].
+      - rewrite eval_template_E. apply fr_wrap.
+        apply fr_bind; [apply fr_template_options; intros pe Hpe; fr_go|]. intros o'.
+        apply fr_bind; [apply fr_emit_reads|]. intros _. apply fr_bind; [apply fr_of_rres|].
+        intros j. destruct (to_str j); fr_go.
+      - rewrite validate_template_E. apply fr_bind; [apply fr_iterM; intros pe Hpe; fr_go|]. intros _.
+        apply fr_iterM. intros k _. unfold validate_ref. apply fr_bind; [apply fr_rd|]. intros r.
+        destruct r as [raw| |]; try apply fr_fail.
+        apply fr_bind; [apply fr_emit_reads|]. intros _.
+        apply fr_bind; [apply fr_wrap, fr_of_rres|intros; apply fr_ret].
+      - rewrite keys_template_E. apply fr_bind; [apply fr_unionM; intros pe Hpe; fr_go|]. intros a.
+        apply fr_bind; [apply fr_unionM; intros; apply fr_ref_keys|intros; apply fr_ret].
+    Qed.
+
+    Lemma frame_EComp e effects : PP e -> Forall PP effects -> PP (EComp e effects).
+    Proof.
+      intros H1 H2 Hc. cbn [caches_allowed] in Hc. apply andb_prop in Hc as [C1 C2].
+      specialize (H1 C1). pose proof (list_use _ H2 C2) as U.
+      intros o. split; [|split].
+      - rewrite eval_comp_E. apply fr_wrap. apply fr_bind; [fr_go|]. intros v.
+        apply fr_bind; [|intros; apply fr_ret]. destruct (effects_opt_off o); [apply fr_ret|].
+        apply fr_iterM. intros x Hx. unfold effect_run. apply fr_bind; [fr_go|]. intros f.
+        apply fr_bind; [apply fr_call_value|intros; apply fr_ret].
+      - rewrite validate_comp_E. apply fr_bind; [fr_go|]. intros _.
+        destruct (effects_opt_off o); [apply fr_ret|]. apply fr_iterM. intros x Hx. fr_go.
+      - rewrite keys_comp_E. fr_go.
+    Qed.
+
+    Lemma frame_ELogged e : PP e -> PP (ELogged e).
+    Proof.
+      intros H1 Hc. cbn [caches_allowed] in Hc. specialize (H1 Hc). intros o. split; [|split].
+      - rewrite eval_logged_E. fr_go.
+      - rewrite validate_logged_E. fr_go.
+      - rewrite keys_logged_E. fr_go.
+    Qed.
+
+    Lemma frame_EPipe steps : Forall PP steps -> PP (EPipe steps).
+    Proof.
+      intros H1 Hc. cbn [caches_allowed] in Hc. pose proof (list_use _ H1 Hc) as U.
+      intros o. split; [|split].
+      - rewrite eval_pipe_E. apply fr_wrap. apply fr_bind; [|intros; apply fr_ret].
+        apply fr_mapM. intros x Hx. fr_go.
+      - rewrite validate_pipe_E. apply fr_iterM. intros x Hx. fr_go.
+      - rewrite keys_pipe_E. apply fr_unionM. intros x Hx. fr_go.
+    Qed.
+
+    (** THE STORE FRAME THEOREM *)
+    Theorem store_frame e : caches_allowed e = true -> fr3 e.
+    Proof.
+      induction e using expr_ind'.
+      - intros _ o. split; [|split].
+        + rewrite eval_value_E. fr_go.
+        + rewrite validate_value_E. fr_go.
+        + rewrite keys_value_E. fr_go.
+      - now apply frame_EOption.
+      - now apply frame_EApply.
+      - now apply frame_EBind.
+      - now apply frame_ESwitch.
+      - now apply frame_ECase.
+      - now apply frame_ECoalesce.
+      - now apply frame_EIter.
+      - now apply frame_EMap.
+      - now apply frame_EWith.
+      - now apply frame_ECached.
+      - now apply frame_ECall.
+      - now apply frame_ETemplate.
+      - now apply frame_EComp.
+      - now apply frame_ELogged.
+      - now apply frame_EPipe.
+      - intros _ o. split; [|split].
+        + rewrite eval_alloptions_E. apply fr_wrap, fr_all_options_eval.
+        + rewrite validate_alloptions_E. apply fr_bind; [apply fr_wrap, fr_all_options_eval|intros; apply fr_ret].
+        + rewrite keys_alloptions_E. fr_go.
+    Qed.
+
+    Corollary eval_frame e o s r s' l :
+      caches_allowed e = true -> eval e o s = (r, s', l) -> R s s'.
+    Proof. intros Hc H. exact (proj1 (store_frame e Hc o) _ _ _ _ H). Qed.
+    Corollary validate_frame e o s r s' l :
+      caches_allowed e = true -> validate e o s = (r, s', l) -> R s s'.
+    Proof. intros Hc H. exact (proj1 (proj2 (store_frame e Hc o)) _ _ _ _ H). Qed.
+    Corollary keys_frame_store e o s r s' l :
+      caches_allowed e = true -> keys e o s = (r, s', l) -> R s s'.
+    Proof. intros Hc H. exact (proj2 (proj2 (store_frame e Hc o)) _ _ _ _ H). Qed.
+  End StoreFrame.
+
+  (** ** 4. Computations that neither look at the store nor run user code *)
+  Definition quiet_ev (ev : event) : bool :=
+    match ev with EvRead _ _ | EvReadAll => true | _ => false end.
+  Definition quiet (l : list event) : bool := forallb quiet_ev l.
+  Definition static {A} (m : M A) : Prop :=
+    exists r l, quiet l = true /\ forall s, m s = (r, s, l).
+
+  Lemma quiet_app a b : quiet (a ++ b) = quiet a && quiet b.
+  Proof. apply forallb_app. Qed.
+
+  Lemma static_ret {A} (a : A) : static (ret a).
+  Proof. exists (Ok a), []. split; reflexivity. Qed.
+  Lemma static_fail {A} c ee : static (@Eval.fail S A c ee).
+  Proof. exists (Err c ee), []. split; reflexivity. Qed.
+  Lemma static_emit ev : quiet_ev ev = true -> static (emit ev).
+  Proof. intros H. exists (Ok tt), [ev]. split; [cbn; now rewrite H|reflexivity]. Qed.
+  Lemma static_bind {A B} (m : M A) (f : A -> M B) : static m -> (forall a, static (f a)) -> static (bind m f).
+  Proof.
+    intros (r & l & Hq & Hm) Hf. destruct r as [a|c ee].
+    - destruct (Hf a) as (r2 & l2 & Hq2 & Hf2). exists r2, (l ++ l2). split.
+      + rewrite quiet_app, Hq, Hq2. reflexivity.
+      + intros s. rewrite (bind_okE _ _ _ _ _ _ (Hm s)), Hf2. reflexivity.
+    - exists (Err c ee), l. split; [exact Hq|]. intros s. now rewrite (bind_errE _ _ _ _ _ _ _ (Hm s)).
+  Qed.
+  Lemma static_catch {A} (m : M A) h : static m -> (forall c ee, static (h c ee)) -> static (catch m h).
+  Proof.
+    intros (r & l & Hq & Hm) Hh. destruct r as [a|c ee].
+    - exists (Ok a), l. split; [exact Hq|]. intros s. now rewrite (catch_okE _ _ _ _ _ _ (Hm s)).
+    - destruct (Hh c ee) as (r2 & l2 & Hq2 & Hh2).
+      assert (Hc : c = CUnmodelled \/ c <> CUnmodelled)
+        by (destruct c; first [now left|right; discriminate]).
+      destruct Hc as [->|Hne].
+      + exists (Err CUnmodelled ee), l. split; [exact Hq|].
+        intros s. now rewrite (catch_unmodE _ _ _ _ _ _ (Hm s)).
+      + exists r2, (l ++ l2). split; [rewrite quiet_app, Hq, Hq2; reflexivity|].
+        intros s. rewrite (catch_errE _ _ _ _ _ _ _ (Hm s) Hne), Hh2. reflexivity.
+  Qed.
+  Lemma static_wrap {A} (m : M A) : static m -> static (wrap_eval m).
+  Proof.
+    intros (r & l & Hq & Hm). destruct r as [a|c ee].
+    - exists (Ok a), l. split; [exact Hq|]. intros s. rewrite wrap_eval_out, Hm. reflexivity.
+    - exists (Err c true), l. split; [exact Hq|]. intros s. rewrite wrap_eval_out, Hm. reflexivity.
+  Qed.
+  Lemma static_mapM {A B} (f : A -> M B) l : (forall a, In a l -> static (f a)) -> static (mapM S f l).
+  Proof.
+    induction l as [|a l IH]; intros H; [apply static_ret|]. rewrite mapM_cons.
+    apply static_bind; [apply H; now left|]. intros b. apply static_bind; [|intros; apply static_ret].
+    apply IH. intros x Hx. apply H. now right.
+  Qed.
+  Lemma static_iterM {A} (f : A -> M unit) l : (forall a, In a l -> static (f a)) -> static (iterM S f l).
+  Proof.
+    induction l as [|a l IH]; intros H; [apply static_ret|]. rewrite iterM_cons.
+    apply static_bind; [apply H; now left|]. intros _. apply IH. intros x Hx. apply H. now right.
+  Qed.
+  Lemma static_unionM {A} (f : A -> M (list key)) l : (forall a, In a l -> static (f a)) -> static (unionM S f l).
+  Proof.
+    induction l as [|a l IH]; intros H; [apply static_ret|]. rewrite unionM_cons.
+    apply static_bind; [apply H; now left|]. intros b. apply static_bind; [|intros; apply static_ret].
+    apply IH. intros x Hx. apply H. now right.
+  Qed.
+  Lemma static_pick {A} k (onhit : expr -> M A) onmiss tbl :
+    (forall ve, In ve tbl -> static (onhit (snd ve))) -> static onmiss -> static (pick k onhit onmiss tbl).
+  Proof.
+    intros Hh Hm. induction tbl as [|[v b] tbl IH]; [exact Hm|]. cbn [pick].
+    destruct (value_eq k v).
+    - apply (Hh (v, b)). now left.
+    - apply IH. intros ve Hve. apply Hh. now right.
+  Qed.
+  Lemma static_dflt_or {A} dflt (f : expr -> M A) none :
+    (forall d, dflt = Some d -> static (f d)) -> static none -> static (dflt_or dflt f none).
+  Proof. intros Hf Hn. destruct dflt as [d|]; cbn; [now apply Hf|exact Hn]. Qed.
+
+  Lemma static_rd k o : static (rd S k o).
+  Proof. unfold rd. apply static_bind; [now apply static_emit|intros; apply static_ret]. Qed.
+  Lemma static_of_rres r : static (of_rres S r).
+  Proof. destruct r; cbn; first [apply static_ret|apply static_fail]. Qed.
+  Lemma static_emit_reads ks o : static (emit_reads S ks o).
+  Proof. unfold emit_reads. apply static_iterM. intros. now apply static_emit. Qed.
+  Lemma static_ref_keys fuel strict o : forall k, static (ref_keys S fuel strict o k).
+  Proof.
+    induction fuel as [|fuel IH]; intros k; [apply static_fail|].
+    rewrite ref_keys_S. apply static_bind; [apply static_rd|]. intros r.
+    destruct r as [[]| |]; try apply static_ret; try apply static_fail.
+    - destruct (has_par s); [apply static_fail|]. apply static_bind; [|intros; apply static_ret].
+      apply static_unionM. intros; apply IH.
+    - destruct strict; [apply static_fail|apply static_ret].
+  Qed.
+  Lemma static_filter_preset force p o mixed ks : static (filter_preset S force p o mixed ks).
+  Proof.
+    induction ks as [|k ks IH]; cbn [filter_preset]; [apply static_ret|].
+    destruct (preset_drops force p o mixed k); [|apply static_fail].
+    apply static_bind; [exact IH|intros; apply static_ret].
+  Qed.
+  Lemma static_fingerprint_of ks o : static (fingerprint_of S ks o).
+  Proof.
+    unfold fingerprint_of. apply static_mapM. intros k _.
+    destruct (lookup k (JObj o)); first [apply static_ret|apply static_fail].
+  Qed.
+
+  (** dispatch expressions whose evaluation is static: constants and plain Options (no domain)
+      with such defaults *)
+  Fixpoint pure_expr (e : expr) : bool :=
+    match e with
+    | EValue _ => true
+    | EOption _ dflt None => optb pure_expr dflt
+    | _ => false
+    end.
+
+  Lemma pure_eval_static e : pure_expr e = true -> forall o, static (eval e o).
+  Proof.
+    induction e using expr_ind'; intros Hp o; try discriminate.
+    - rewrite eval_value_E. apply static_wrap, static_ret.
+    - destruct dom; [discriminate|]. cbn [pure_expr] in Hp.
+      rewrite eval_option_unfold. apply static_wrap. rewrite option_eval_E.
+      apply static_bind; [apply static_rd|]. intros r.
+      apply static_bind; [|intros; apply static_ret].
+      destruct r as [raw| |]; [| |apply static_fail].
+      + apply static_bind; [apply static_emit_reads|]. intros _.
+        apply static_bind; [apply static_of_rres|intros; apply static_ret].
+      + destruct dflt as [d|]; [|apply static_fail]. cbn in *. now apply H.
+  Qed.
+
+  (** the fragment on which keys() is static: no case-when, coalesce or Map on the path keys()
+      walks, and every switch / bind / overload dispatch is a [pure_expr].  (keys() ignores an
+      Option's domain and a Computation's effects, so these are unrestricted.) *)
+  Fixpoint kstatic (e : expr) : bool :=
+    match e with
+    | EValue _ | EAllOptions => true
+    | EOption _ dflt _ => optb kstatic dflt
+    | EApply src fn => kstatic src && kstatic fn
+    | EBind src tbl dflt | ESwitch src tbl dflt =>
+        pure_expr src && kstatic src && forallb (fun ve => kstatic (snd ve)) tbl && optb kstatic dflt
+    | ECase _ _ _ | ECoalesce _ | EMap _ _ => false
+    | EIter es | EPipe es => forallb kstatic es
+    | EWith _ _ e | ELogged e | ECached _ e | EComp e _ => kstatic e
+    | ECall _ f args kwargs => kstatic f && forallb kstatic args && forallb kstatic kwargs
+    | ETemplate _ ps => forallb (fun pe => kstatic (snd pe)) ps
+    end.
+
+  Definition KS (e : expr) : Prop := kstatic e = true -> forall o, static (keys e o).
+
+  Lemma ks_opt dflt : Popt KS dflt -> optb kstatic dflt = true -> forall d o, dflt = Some d -> static (keys d o).
+  Proof. intros H1 H2 d o ->. cbn in *. auto. Qed.
+  Lemma ks_list l : Forall KS l -> forallb kstatic l = true -> forall x o, In x l -> static (keys x o).
+  Proof.
+    intros H1 H2 x o Hx. rewrite Forall_forall in H1. rewrite forallb_forall in H2. apply H1; auto.
+  Qed.
+  Lemma ks_snd {K} (l : list (K * expr)) :
+    Forall (fun ve => KS (snd ve)) l -> forallb (fun ve => kstatic (snd ve)) l = true ->
+    forall ve o, In ve l -> static (keys (snd ve) o).
+  Proof.
+    intros H1 H2 x o Hx. rewrite Forall_forall in H1. rewrite forallb_forall in H2. apply H1; auto.
+  Qed.
+
+  Theorem keys_static e : kstatic e = true -> forall o, static (keys e o).
+  Proof.
+    induction e using expr_ind'; intros Hk o; cbn [kstatic] in Hk; try discriminate.
+    - rewrite keys_value_E. apply static_ret.
+    - rewrite keys_option_E. apply static_bind; [apply static_rd|]. intros r.
+      destruct r as [[]| |]; try apply static_ret; try apply static_fail.
+      + destruct (has_par s); [apply static_fail|]. apply static_bind; [|intros; apply static_ret].
+        apply static_unionM. intros; apply static_ref_keys.
+      + apply static_dflt_or; [|apply static_fail]. intros d Ed. eapply ks_opt; eauto.
+    - apply andb_prop in Hk as [K1 K2]. rewrite keys_apply_E.
+      apply static_bind; [now apply IHe1|]. intros a.
+      apply static_bind; [now apply IHe2|intros; apply static_ret].
+    - apply andb_prop in Hk as [Hk K4]. apply andb_prop in Hk as [Hk K3]. apply andb_prop in Hk as [K1 K2].
+      rewrite keys_bind_E. apply static_bind; [now apply IHe|]. intros a.
+      apply static_bind; [now apply pure_eval_static|]. intros x.
+      apply static_bind; [|intros; apply static_ret].
+      apply static_pick; [intros ve Hve; eapply ks_snd; eauto|].
+      apply static_dflt_or; [|apply static_fail]. intros d Ed. eapply ks_opt; eauto.
+    - apply andb_prop in Hk as [Hk K4]. apply andb_prop in Hk as [Hk K3]. apply andb_prop in Hk as [K1 K2].
+      rewrite keys_switch_E. apply static_bind.
+      { unfold dispatch_value. apply static_catch.
+        - apply static_bind; [now apply pure_eval_static|intros; apply static_ret].
+        - intros c ee. destruct (ee && is_some dflt); [apply static_ret|apply static_fail]. }
+      intros [k|].
+      + destruct (negb (hashable k)); [apply static_fail|].
+        apply static_bind; [|intros; apply static_bind; [now apply IHe|intros; apply static_ret]].
+        apply static_pick; [intros ve Hve; eapply ks_snd; eauto|].
+        apply static_dflt_or; [|apply static_fail]. intros d Ed. eapply ks_opt; eauto.
+      + apply static_dflt_or; [|apply static_fail]. intros d Ed. eapply ks_opt; eauto.
+    - rewrite keys_iter_E. apply static_unionM. intros x Hx. eapply ks_list; eauto.
+    - rewrite keys_with_E. apply static_bind; [now apply IHe|]. intros; apply static_filter_preset.
+    - rewrite keys_cached_E. now apply IHe.
+    - apply andb_prop in Hk as [Hk K3]. apply andb_prop in Hk as [K1 K2]. rewrite keys_call_E.
+      apply static_bind; [now apply IHe|]. intros a.
+      apply static_bind; [apply static_unionM; intros x Hx; eapply ks_list; eauto|]. intros b.
+      apply static_bind; [apply static_unionM; intros x Hx; eapply ks_list; eauto|]. intros; apply static_ret.
+    - rewrite keys_template_E.
+      apply static_bind; [apply static_unionM; intros pe Hpe; eapply ks_snd; eauto|]. intros a.
+      apply static_bind; [apply static_unionM; intros; apply static_ref_keys|intros; apply static_ret].
+    - rewrite keys_comp_E. now apply IHe.
+    - rewrite keys_logged_E. now apply IHe.
+    - rewrite keys_pipe_E. apply static_unionM. intros x Hx. eapply ks_list; eauto.
+    - rewrite keys_alloptions_E. apply static_bind; [now apply static_emit|intros; apply static_ret].
+  Qed.
+
+  Corollary fingerprint_static e : kstatic e = true -> forall o, static (fingerprint e o).
+  Proof.
+    intros Hk o. unfold fingerprint. apply static_bind; [now apply keys_static|].
+    intros; apply static_fingerprint_of.
+  Qed.
+End Trace.
